@@ -537,6 +537,10 @@ func (fc *FCtx) specCall(n *SNode, env *Env) Val {
 		if args[0].S.Kind == KMap {
 			return Val{T: app(fc.mapCard(args[0].S), args[0].T), S: SInt}
 		}
+		if args[0].S.Name == "Addr" {
+			fc.U.Fun("addr_len", []*Sort{args[0].S}, SInt)
+			return Val{T: app("addr_len", args[0].T), S: SInt}
+		}
 		oos("spec: len of %s", args[0].S.Name)
 	case "cap":
 		evalArgs()
